@@ -301,6 +301,16 @@ var $newType = (size, kind, string, named, pkg, exported, constructor) => {
                             if (v.$val === undefined) {
                                 v = new f.typ(v);
                             }
+                            if (v[m.prop] === undefined && f.typ.kind !== $kindPtr) {
+                                // Pointer-receiver method of an embedded non-struct value:
+                                // call it on a pointer to the field.
+                                var obj = this.$val;
+                                if (f.typ.kind === $kindArray) {
+                                    v = new ($ptrType(f.typ))(obj[f.prop]);
+                                } else {
+                                    v = obj["$ptr_" + f.prop] || (obj["$ptr_" + f.prop] = new ($ptrType(f.typ))(function() { return this.$target[f.prop]; }, function(x) { this.$target[f.prop] = x; }, obj));
+                                }
+                            }
                             return v[m.prop](...args);
                         };
                     };
